@@ -244,7 +244,7 @@ CHECKS = {
         "floor": {"quick": 300, "thorough": 8000},
         "replay_runs": 2,
         "replay_timeout": 600,
-        "rule": "the C08 workloads and fault plans (journal/table/manifest create, write, sync, close, remove, rename, SetMeta failures on the paths that hold the write lock or the compaction-commit lock; transactions, oversized batches, CompactRange, reopen/Close at any point) run in strict mode: every Put/Write/Get/OpenTransaction/Commit/Discard/CompactRange/Open/Close is issued under a watchdog; 3 s after issue the watchdog stops all injected failures, and if the call has still not returned 12 s later (the code's own retry sleeps are 3x1 s) two goroutine dumps 1.5 s apart are compared: if every goroutine inside goleveldb is parked on the same operation in both (none runnable, sleeping or in a syscall) the DB is in a stable blocked state = violation; otherwise the case is counted inconclusive. "
+        "rule": "the C08 workloads and fault plans (journal/table/manifest create, write, sync, close, remove, rename, SetMeta failures on the paths that hold the write lock or the compaction-commit lock; transactions, oversized batches, CompactRange, reopen/Close at any point) run in strict mode: every Put/Write/Get/OpenTransaction/Commit/Discard/CompactRange/Open/Close is issued under a watchdog; 5 s after issue (longer than the 3x1 s for which Transaction.Commit retries by itself, so that the call after a failed Commit still meets the failures) the watchdog stops all injected failures, and if the call has still not returned 12 s later two goroutine dumps 1.5 s apart are compared: if every goroutine inside goleveldb is parked on the same operation in both (none runnable, sleeping or in a syscall) the DB is in a stable blocked state = violation; otherwise the case is counted inconclusive. "
                 "Non-trivial: a fault fired on a lock-holding path (journal, manifest, table create/write/sync) and further calls were issued afterwards.",
         "level_text": "Exploration; liveness is decided as bounded responsiveness plus a stable-blocked-state test, so every report is a genuine deadlock; silence is evidence only up to the bound.",
         "level_note": "Single client plus the DB's background goroutines in this engine; concurrent writers and Close racing with calls are exercised by C10 (writers) and C18 (Close vs. reads). DisableCompactionBackoff is set.",
